@@ -464,22 +464,58 @@ func genLen(r *RNG) int {
 	return 4090 + r.Intn(12)
 }
 
+// genText: the payload of a string-like AVP. Mostly arbitrary octets; otherwise well-formed
+// UTF-8 text over alphabets of 1-, 2-, 3- and 4-byte characters, with character counts around
+// the sizes a renderer or an "optimised" decoder might single out - so that byte length and
+// character count differ.
+var textCounts = []int{0, 1, 2, 7, 15, 16, 17, 20, 31, 32, 33, 40, 60, 63, 64, 65, 100, 127, 128, 129, 200, 255, 256, 257, 300}
+
+func genText(r *RNG) []byte {
+	if r.Chance(65) {
+		return r.Bytes(genLen(r))
+	}
+	alphabets := [][]rune{
+		[]rune("abcXYZ019 .-_@:/"),
+		[]rune("жлыяЩЁüéñß"),
+		[]rune("漢字かなカナ한글"),
+		[]rune("😀🚀𝔘𐍈"),
+	}
+	n := textCounts[r.Intn(len(textCounts))]
+	if r.Chance(30) {
+		n = r.Intn(90)
+	}
+	mixed := r.Chance(25)
+	a := alphabets[r.Intn(len(alphabets))]
+	out := make([]rune, n)
+	for i := range out {
+		if mixed {
+			a = alphabets[r.Intn(len(alphabets))]
+		}
+		out[i] = a[r.Intn(len(a))]
+	}
+	b := []byte(string(out))
+	if r.Chance(5) && len(b) > 2 { // a single invalid byte inside otherwise valid text
+		b[r.Intn(len(b))] = 0xff
+	}
+	return b
+}
+
 func genLeaf(r *RNG, t datatype.TypeID) datatype.Type {
 	switch t {
 	case datatype.UnknownType:
-		return datatype.Unknown(r.Bytes(genLen(r)))
+		return datatype.Unknown(genText(r))
 	case datatype.DiameterIdentityType:
-		return datatype.DiameterIdentity(r.Bytes(genLen(r)))
+		return datatype.DiameterIdentity(genText(r))
 	case datatype.DiameterURIType:
-		return datatype.DiameterURI(r.Bytes(genLen(r)))
+		return datatype.DiameterURI(genText(r))
 	case datatype.IPFilterRuleType:
-		return datatype.IPFilterRule(r.Bytes(genLen(r)))
+		return datatype.IPFilterRule(genText(r))
 	case datatype.OctetStringType:
-		return datatype.OctetString(r.Bytes(genLen(r)))
+		return datatype.OctetString(genText(r))
 	case datatype.QoSFilterRuleType:
-		return datatype.QoSFilterRule(r.Bytes(genLen(r)))
+		return datatype.QoSFilterRule(genText(r))
 	case datatype.UTF8StringType:
-		return datatype.UTF8String(r.Bytes(genLen(r)))
+		return datatype.UTF8String(genText(r))
 	case datatype.EnumeratedType:
 		return datatype.Enumerated(int32(pickU32(r)))
 	case datatype.Integer32Type:
@@ -607,6 +643,8 @@ func genAVP(r *RNG, v *dictView, app uint32, depth int) *diam.AVP {
 		if depth < 4 {
 			n = r.Intn(4)
 		} else if depth < 12 && r.Chance(70) {
+			n = 1
+		} else if depth < 40 && r.Chance(85) { // a few very deep chains
 			n = 1
 		}
 		for i := 0; i < n; i++ {
